@@ -2,6 +2,7 @@ package msgpack
 
 import (
 	"bytes"
+	"math"
 
 	"github.com/vmihailenco/msgpack/v5"
 	msgpackCodes "github.com/vmihailenco/msgpack/v5/msgpcode"
@@ -116,6 +117,10 @@ func unmarshalPrimitive(dec *msgpack.Decoder, ty cty.Type, path cty.Path) (cty.V
 			rv, err := dec.DecodeFloat64()
 			if err != nil {
 				return cty.DynamicVal, path.NewErrorf("number is required")
+			}
+			if math.IsNaN(rv) {
+				// cty numbers have no NaN, and NumberFloatVal would panic.
+				return cty.DynamicVal, path.NewErrorf("number is required, but got NaN")
 			}
 			return cty.NumberFloatVal(rv), nil
 		default:
